@@ -382,6 +382,9 @@ func runC09(c *eng.Ctx) {
 	// ---- 8/9. prepare-flush guard and flush commit order, four stores (shared with C10) ----------------------------
 	flushLifecycleRules(c)
 
+	// ---- 9b. the schema flush marks persisted exactly what it wrote -----------------------------------------------------------------
+	c.Rule("ATOMIC", mssT+".Flush{written == marked}", func() { schemaFlushMarksWhatItWrote(c) })
+
 	// ---- 10. series id provenance -----------------------------------------------------------------------------------
 	c.Rule("PROV", midT+".createSeriesID", func() {
 		f := c.Fn(midT + ".createSeriesID")
@@ -654,4 +657,74 @@ func flushLifecycleRules(c *eng.Ctx) {
 		})
 	}
 
+}
+
+// schemaFlushMarksWhatItWrote (F16): genFieldID / genTagKeyID append to a schema object under the store's write lock, and an
+// object of the immutable store may also be registered in the mutable store (same pointer).  metricSchemaStore.Flush therefore
+// must not (a) serialise such an object outside the lock and then (b) mark ALL its entries persisted: an entry appended in
+// between is marked without having been written, no later flush writes it, and after a restart its id is handed out again.
+// Necessary condition decided here: the value handed to flusher.Write is either written inside the same write hold that marks
+// it, or it is a private copy taken under the lock — and the marking is then bounded by that copy (not Schema.MarkPersisted,
+// which marks whatever the live object holds now).
+func schemaFlushMarksWhatItWrote(c *eng.Ctx) {
+	p := c.P
+	f := c.Fn(mssT + ".Flush")
+	ls := p.Locks(f, nil)
+	// position inside Flush of an instruction that may sit in a callback literal handed to a call of Flush (WalkEntry(func...))
+	posInFlush := func(in ssa.Instruction) ssa.Instruction {
+		cl := in.Parent()
+		if cl == f {
+			return in
+		}
+		for cl != nil && cl.Parent() != f {
+			cl = cl.Parent()
+		}
+		if cl == nil {
+			return nil
+		}
+		for _, b := range f.Blocks {
+			for _, x := range b.Instrs {
+				if call, ok := x.(ssa.CallInstruction); ok {
+					for _, a := range call.Common().Args {
+						if eng.FuncOfValue(a) == cl { // a closure, or a literal that captures nothing (plain function value)
+							return x
+						}
+					}
+				}
+			}
+		}
+		return nil
+	}
+	writes := p.SitesDeep(f, invokeOn("", "Write"))
+	if len(writes) == 0 {
+		c.Undecided("no flusher.Write(schema) in metricSchemaStore.Flush or its callbacks")
+	}
+	markAll := p.SitesDeep(f, eng.AnyCallTo("series/metric.Schema.MarkPersisted"))
+	for i, w := range writes {
+		arg := eng.CallArgs(w.Instr.(*ssa.Call))[0]
+		at := posInFlush(w.Instr)
+		underLock := at != nil && ls.At(at).HasField(mssMu, false)
+		// a private copy: the written value is (the address of) a local / a struct built in Flush, not an element of the store
+		live := eng.DependsOn(arg, func(x ssa.Value) bool {
+			if pr, ok := x.(*ssa.Parameter); ok && pr.Parent() != f {
+				// the callback parameter of immutable.WalkEntry: the live object of the store
+				return true
+			}
+			return false
+		}) && !eng.DependsOn(arg, func(x ssa.Value) bool { _, ok := x.(*ssa.Alloc); return ok })
+		if live && !underLock {
+			c.Check(len(markAll) == 0, fmt.Sprintf("live-object-written-unlocked-is-not-marked-wholesale[%d]", i), w.Instr, f,
+				"a schema object that writers can still extend is serialised outside the store lock; marking ALL its entries persisted afterwards would mark entries appended meanwhile that were never written",
+				"flusher.Write("+p.Desc(arg)+") runs without "+mssMu+" and Flush later calls Schema.MarkPersisted() on the live objects")
+		} else {
+			c.Check(true, fmt.Sprintf("written-value-is-stable[%d]", i), w.Instr, f, "the schema handed to the flusher cannot change while it is written (private copy, or written under the store lock)", "")
+		}
+	}
+	// whatever marks entries persisted does so under the write lock
+	marks := p.SitesDeep(f, eng.StoreField("series/field.Meta.Persisted", "series/tag.Meta.Persisted"))
+	for i, m := range append(append([]eng.Site{}, markAll...), marks...) {
+		at := posInFlush(m.Instr)
+		c.Check(at != nil && ls.At(at).HasField(mssMu, true), fmt.Sprintf("marking-under-write-lock[%d]", i), m.Instr, f, "entries are marked persisted under the store's write lock", "")
+	}
+	c.Check(len(markAll)+len(marks) > 0, "marks-something", nil, f, "Flush marks the written entries persisted", "no marking found")
 }
